@@ -329,6 +329,7 @@ type Global struct {
 
 	builtinMts map[int]LValue
 	tempFiles  []*os.File
+	openFiles  []*lFile // files opened by name that are still open: flushed and closed by LState.Close
 	gccount    int32
 }
 
